@@ -15,6 +15,7 @@ import Jsonapi.Driver.Alias
 import Jsonapi.Driver.Codec
 import Jsonapi.Driver.Request
 import Jsonapi.Driver.JsonText
+import Jsonapi.Driver.Misc
 open Jsonapi Jsonapi.Driver
 
 structure DState where
@@ -22,6 +23,7 @@ structure DState where
   res : ResState := {}
   col : SColl := default
   alias : AliasState := {}
+  misc : MiscState := {}
 
 def stepLine (st : DState) (line : String) : DState × String :=
   match Sx.parseLine line with
@@ -67,6 +69,9 @@ def stepLine (st : DState) (line : String) : DState × String :=
   | [.list (.atom "codec" :: args)] =>
     let (m, sp, dom) := stepCodec args
     (st, m ++ "\t" ++ sp ++ "\t" ++ (if dom then "1" else "0"))
+  | [.list (.atom "misc" :: args)] =>
+    let (m', m) := stepMisc st.misc args
+    ({ st with misc := m' }, m ++ "\t-\t1")
   | [.list (.atom "shared" :: _)] => (st, "-\t-\t1")
   | _ => (st, "bad-line\t-\t0")
 
